@@ -16,12 +16,12 @@ HANDLERS = ["no exception handler", "handler returns True", "handler returns Fal
 
 
 def cfg(tier):
-    return (1, 6) if tier == "quick" else (2, 10)
+    return (1, 6) if tier == "quick" else (2, 7)
 
 
 def params(tier):
     D, L = cfg(tier)
-    nt = 2 if tier == "quick" else 3
+    nt = 2
     ps = [P("ntask", 0, nt - 1), P("site", 0, 2), P("nested", 0, 1), P("handler", 0, 2), P("fstart", 0, 1)]
     for i in range(nt):
         ps += [P(f"api{i}", 0, 1), P(f"out{i}", 0, 4)]
@@ -33,7 +33,7 @@ def params(tier):
 @guard
 def fn(a, tier):
     D, L = cfg(tier)
-    ntmax = 2 if tier == "quick" else 3
+    ntmax = 2
     nt = 1 + pick(a["ntask"], ntmax)
     site, nested = pick(a["site"], 3), pick(a["nested"], 2)
     apis = [pick(a[f"api{i}"], 2) for i in range(nt)]
@@ -245,9 +245,9 @@ H = Harness(
     params=params,
     cube=lambda tier: 7,
     title="tasks spawned through a TaskFactory from different sites, with every outcome, handler verdict and owner teardown while tasks run",
-    bound_text=lambda tier: f"1-{2 if tier == 'quick' else 3} tasks x {{start_task, start_task_soon}} x outcome{{" + "; ".join(OUTCOMES) + "} x spawned from {"
+    bound_text=lambda tier: f"1-2 tasks x {{start_task, start_task_soon}} x outcome{{" + "; ".join(OUTCOMES) + "} x spawned from {"
     + "; ".join(SITES) + "} x " + "/".join(HANDLERS) + " x owner root-level/nested x factory started by the shortcut / by the owner's method from inside another nested context; every task has an async teardown callback in its own context; observer after EVERY scheduler step; late spawns after teardown; FIFO with "
-    + ("one deviation within 6 decisions; the second task only returns / keeps running / raises" if tier == "quick" else "two deviations"),
+    + ("one deviation within 6 decisions; the second task only returns / keeps running / raises" if tier == "quick" else "two deviations (each within 7 decisions), all outcomes for both tasks"),
     oracle="task context's parent chain = factory context -> owner, never the spawner's; tasks see exactly the resources present when the factory "
     "started; at every scheduler step: running tasks are in all_task_handles(), tasks whose wait_finished() returned are not, no foreign handles; "
     "wait_finished() returns for every outcome and only after the task's own context has been torn down; cancel() affects only its task; leaving the owner waits for running tasks (none sees a "
